@@ -253,3 +253,350 @@ def check_C02(ck):
             rec.append(("recscalar", "%s recscalar %x" % (tag, k % (1 << 256))))
         for (c, (impl, _)) in zip(rec, ck.run(rec)):
             ck.expect(impl.isdigit() and 2 <= int(impl) <= 22, "recommend-range", c[1], impl, "2..=22", "recommended window in range")
+
+
+# ====================================================================== C03 / C11 / C12 (pairing)
+
+def check_C03(ck):
+    rng = ck.rng
+    thorough = ck.tier == "thorough"
+    g1, g2 = grp("g1"), grp("g2")
+    n = 3 if not thorough else 12
+    base = []
+    for _ in range(n):
+        base.append((g1.sub_pt(rng), g2.sub_pt(rng)))
+    base.append((g1.gen, g2.gen))
+    cases = []
+    for (P, Qp) in base:
+        cases.append(("pairing/base", "pairing %s %s" % (g1.A(P), g2.A(Qp))))
+    cases.append(("pairing/identity-left", "pairing inf %s" % g2.A(g2.gen)))
+    cases.append(("pairing/identity-right", "pairing %s inf" % g1.A(g1.gen)))
+    cases.append(("pairing/identity-both", "pairing inf inf"))
+    res = ck.run(cases)
+    one = O.show_f12(O.F12_ONE)
+    for c, (impl, _) in zip(cases[len(base):], res[len(base):]):
+        ck.expect(impl == one, "identity->1", c[1], impl, one, "e(P,Q)=1 when P or Q is the identity")
+    evals = [O.parse_f12(impl) if impl.count(",") == 11 else None for (impl, _) in res[:len(base)]]
+    scal = [0, 1, 2, R - 1, R, R + 1, rng.randrange(R), rng.randrange(R), (1 << 255) | rng.randrange(1 << 255)]
+    c2, exp = [], []
+    for (P, Qp), e in zip(base, evals):
+        if e is None:
+            continue
+        ck.expect(O.f12_pow(e, R) == O.F12_ONE and e != O.F12_ONE, "order-r,non-degenerate", "pairing", "e", "e^r=1,e!=1", "e(P,Q) has order r for non-identity P,Q")
+        for (a, b) in [(rng.choice(scal), rng.choice(scal)) for _ in range(3 if not thorough else 10)] + [(R, 1), (1, R), (R - 1, R - 1), (0, 5)]:
+            aP, bQ = g1.C.mul(P, a), g2.C.mul(Qp, b)
+            c2.append(("bilinear", "pairing %s %s" % (g1.A(aP), g2.A(bQ))))
+            exp.append(O.show_f12(O.f12_pow(e, (a * b) % R)))
+    for c, (impl, _), want in zip(c2, ck.run(c2), exp):
+        ck.expect(impl == want, "bilinear", c[1], impl, want, "e([a]P,[b]Q) = e(P,Q)^(ab)")
+    # published value e(g1,g2): the repository's own relic vector (extracted on the fly from the test source)
+    import re, os
+    src = open(os.path.join(os.environ.get("PP_REPO", "/repo"), "src/bls12_381/tests/mod.rs")).read()
+    m = re.search(r"fn test_pairing_result_against_relic.*?\n}\n", src, re.S)
+    if m:
+        nums = re.findall(r'from_str\("(\d+)"\)', m.group(0))
+        if len(nums) == 12:
+            want = ",".join("%x" % int(t) for t in nums)
+            ck.expect(res[len(base) - 1][0] == want, "kat:e(g1,g2)", cases[len(base) - 1][1], res[len(base) - 1][0], want, "published e(g1,g2) (relic vector pinned in the repository's tests)")
+
+
+def check_C11(ck):
+    rng = ck.rng
+    thorough = ck.tier == "thorough"
+    g1, g2 = grp("g1"), grp("g2")
+    pool = [(g1.sub_pt(rng), g2.sub_pt(rng)) for _ in range(4)] + [(g1.gen, g2.gen)]
+    singles = [("single", "pairing %s %s" % (g1.A(P), g2.A(Qp))) for (P, Qp) in pool]
+    sres = ck.run(singles)
+    val = {i: O.parse_f12(sres[i][0]) for i in range(len(pool)) if sres[i][0].count(",") == 11}
+    cases, exp = [], []
+    for trial in range(6 if not thorough else 40):
+        ln = rng.choice([0, 1, 2, 3, 5, 8] if not thorough else list(range(0, 13)))
+        ps, qs, prod = [], [], O.F12_ONE
+        for _ in range(ln):
+            kind = rng.randrange(5)
+            i = rng.randrange(len(pool))
+            if kind == 0:
+                ps.append(None); qs.append(pool[i][1])
+            elif kind == 1:
+                ps.append(pool[i][0]); qs.append(None)
+            else:
+                ps.append(pool[i][0]); qs.append(pool[i][1])
+                if i in val:
+                    prod = O.f12_mul(prod, val[i])
+        sp = ";".join(g1.A(P) for P in ps) or "-"
+        sq = ";".join(g2.A(Qp) for Qp in qs) or "-"
+        cases.append(("multi/len%d" % ln, "pairmulti %s %s" % (sp, sq))); exp.append(O.show_f12(prod))
+        cases.append(("miller/len%d" % ln, "miller %s %s" % (sp, sq))); exp.append(None)
+        if ln == 2:
+            cases.append(("pairprod", "pairprod %s %s %s %s" % (g1.A(ps[0]), g2.A(qs[0]), g1.A(ps[1]), g2.A(qs[1])))); exp.append(O.show_f12(prod))
+    # cancelling exponents: e(aP,Q) e(-aP,Q) = 1 ; sum a_i b_i = 0 mod r
+    P, Qp = pool[0]
+    a = rng.randrange(1, R)
+    cases.append(("cancel", "pairprod %s %s %s %s" % (g1.A(g1.C.mul(P, a)), g2.A(Qp), g1.A(g1.C.neg(g1.C.mul(P, a))), g2.A(Qp)))); exp.append(O.show_f12(O.F12_ONE))
+    b = rng.randrange(1, R)
+    cases.append(("cancel", "pairmulti %s;%s %s;%s" % (g1.A(g1.C.mul(g1.gen, a)), g1.A(g1.C.mul(g1.gen, b)), g2.A(g2.C.mul(g2.gen, b)), g2.A(g2.C.mul(g2.gen, R - a))))); exp.append(O.show_f12(O.F12_ONE))
+    res = ck.run(cases)
+    mil = []
+    for c, (impl, _), want in zip(cases, res, exp):
+        if want is not None:
+            ck.expect(impl == want, "product", c[1], impl, want, "FE(joint Miller loop) = product of individual pairings")
+        elif impl.count(",") == 11:
+            mil.append((c, impl))
+    fe = ck.run([("finalexp-of-miller", "finalexp %s" % m) for (_, m) in mil])
+    for ((c, _), (impl, _)) in zip(mil, fe):
+        # must equal the pairmulti of the same lists (previous case in the list)
+        idx = cases.index(c)
+        ck.expect(impl == res[idx - 1][0], "fe(miller)=multi", c[1], impl, res[idx - 1][0], "final_exponentiation(miller_loop(pairs)) = pairing_multi_product")
+
+
+def check_C12(ck):
+    rng = ck.rng
+    thorough = ck.tier == "thorough"
+    els = [("zero", O.F12_ZERO), ("one", O.F12_ONE)]
+    m1 = O.f12_unflat([Q - 1] + [0] * 11)
+    els.append(("minus-one", m1))
+    for _ in range(2 if not thorough else 8):
+        els.append(("Fq", O.f12_unflat([rng.randrange(1, Q)] + [0] * 11)))
+        els.append(("Fq2", O.f12_unflat([rng.randrange(Q), rng.randrange(1, Q)] + [0] * 10)))
+        els.append(("Fq6", O.f12_unflat([rng.randrange(Q) for _ in range(6)] + [0] * 6)))
+        # Fq4 = fixed field of x -> x^(q^4): elements a + b w^3 ... simplest: x^((q^12-1)/(q^4-1)) lands in Fq4
+        x = O.f12_unflat([rng.randrange(Q) for _ in range(12)])
+        els.append(("random", x))
+        els.append(("Fq4", O.f12_pow(x, (Q ** 12 - 1) // (Q ** 4 - 1) * 0 + sum(Q ** (4 * i) for i in range(3)))))
+    cases = [("fe/" + c, "finalexp %s" % O.show_f12(x)) for (c, x) in els]
+    res = ck.run(cases)
+    for (c, x), (impl, _), case in zip(els, res, cases):
+        if c == "zero":
+            ck.expect(impl == "none", "fe(0)=none", case[1], impl, "none", "failure exactly for 0")
+            continue
+        want = O.show_f12(O.f12_pow(x, O.FINAL_EXP))
+        ck.expect(impl == want, "fe=pow", case[1], impl, want, "f^(3(q^12-1)/r)")
+        if c in ("Fq", "Fq2", "Fq6", "Fq4", "one", "minus-one"):
+            ck.expect(impl == O.show_f12(O.F12_ONE), "subfield->1", case[1], impl, "1", "proper subfield elements map to 1")
+    # multiplicativity on impl outputs
+    xs = [x for (c, x) in els if c == "random"][:2]
+    if len(xs) == 2:
+        (r1, _), (r2, _), (r12, _) = ck.run([("mult", "finalexp %s" % O.show_f12(t)) for t in (xs[0], xs[1], O.f12_mul(xs[0], xs[1]))])
+        if r1.count(",") == 11 and r2.count(",") == 11:
+            ck.expect(r12 == O.show_f12(O.f12_mul(O.parse_f12(r1), O.parse_f12(r2))), "multiplicative", "finalexp(xy)", r12, "fe(x)fe(y)", "multiplicative")
+    # outputs of Miller loops
+    g1, g2 = grp("g1"), grp("g2")
+    (mres, _), = ck.run([("miller-output", "miller %s %s" % (g1.A(g1.gen), g2.A(g2.sub_pt(rng))))])
+    if mres.count(",") == 11:
+        (impl, _), = ck.run([("fe/miller-output", "finalexp %s" % mres)])
+        ck.expect(impl == O.show_f12(O.f12_pow(O.parse_f12(mres), O.FINAL_EXP)), "fe=pow", "finalexp(miller)", impl, "pow", "f^(3(q^12-1)/r) on a Miller output")
+
+
+# ====================================================================== C04 / C05 / C19 / C07 (bytes, membership)
+
+def _enc_classes(g, rng, thorough):
+    """(class, bytes, compressed) byte strings for the decoders"""
+    K, C = g.K, g.C
+    sz = 48 if K is F1 else 96
+    out = []
+    pts = [("identity", None), ("generator", g.gen)] + [("subgroup", g.sub_pt(rng)) for _ in range(3 if not thorough else 10)]
+    low = [("order-%d" % l, g.low(l, rng)) for l in g.small] + [("full-curve", g.full(rng)) for _ in range(2)]
+    low.append(("low+subgroup", C.add(g.low(g.small[0], rng), g.sub_pt(rng))))
+    for comp in (True, False):
+        ln = sz if comp else 2 * sz
+        for (cl, P) in pts + low:
+            bs = O.encode(K, P, comp)
+            out.append(("valid-enc/" + cl, bs, comp))
+            # every flag combination on the same body
+            for fl in range(8):
+                b2 = bytearray(bs); b2[0] = (b2[0] & 0x1f) | (fl << 5)
+                out.append(("flags%d/%s" % (fl, cl), bytes(b2), comp))
+            # other sort flag on same x (compressed), both roots
+            if P is not None:
+                out.append(("neg-point/" + cl, O.encode(K, C.neg(P), comp), comp))
+            # single-bit corruptions
+            nbits = 8 * ln
+            positions = range(nbits) if (thorough and cl in ("generator", "identity")) else [rng.randrange(nbits) for _ in range(6)]
+            for pos in positions:
+                b2 = bytearray(bs); b2[pos // 8] ^= 1 << (7 - pos % 8)
+                out.append(("bitflip/" + cl, bytes(b2), comp))
+        # coordinate range: each Fq component set to q-1, q, q+1, 2^381-1, 2^384-1 (masked)
+        ncomp = ln // 48
+        for idx in range(ncomp):
+            for (cv, v) in (("q-1", Q - 1), ("q", Q), ("q+1", Q + 1), ("2^381-1", 2 ** 381 - 1), ("0", 0)):
+                body = bytearray(O.encode(K, g.gen, comp))
+                body[48 * idx:48 * idx + 48] = v.to_bytes(48, "big")
+                if idx == 0:
+                    body[0] = (body[0] & 0x1f) | (0x80 if comp else 0)
+                out.append(("coord%d=%s" % (idx, cv), bytes(body), comp))
+        # identity with garbage
+        for pos in (0, 1, ln - 1):
+            b2 = bytearray(O.encode(K, None, comp)); b2[pos] |= 1 if pos else 0x01
+            out.append(("identity+garbage", bytes(b2), comp))
+        # x with / without root: small x
+        for xv in range(0, 12 if not thorough else 200):
+            x = K.from_int(xv)
+            b2 = bytearray(O.enc_f(K, x)) if comp else bytearray(O.enc_f(K, x) + O.enc_f(K, K.from_int(xv + 1)))
+            if comp:
+                b2[0] |= 0x80 | (0x20 if xv % 2 else 0)
+            out.append(("small-x", bytes(b2), comp))
+        for _ in range(6 if not thorough else 60):
+            out.append(("random-bytes", bytes(rng.randrange(256) for _ in range(ln)), comp))
+            b2 = bytearray(rng.randrange(256) for _ in range(ln)); b2[0] = (b2[0] & 0x1f) | (0x80 if comp else 0)
+            out.append(("random-body-good-flags", bytes(b2), comp))
+    return out
+
+
+def _show_dec(g, r):
+    return g.A(r[1]) if r[0] == "ok" else "ERR:" + r[1]
+
+
+def check_C04(ck):
+    rng = ck.rng
+    for tag in ("g1", "g2"):
+        g = grp(tag)
+        cl = _enc_classes(g, rng, ck.tier == "thorough")
+        cases, exp = [], []
+        for (c, bs, comp) in cl:
+            h = bs.hex()
+            for chk in (True, False):
+                op = ("dec_c" if comp else "dec_u") + ("" if chk else "u")
+                cases.append(("%s/%s" % (op, c), "%s %s %s" % (tag, op, h)))
+                exp.append(_show_dec(g, O.decode(g.C, None, bs, comp, chk)))
+        res = ck.run(cases)
+        for c, (impl, _), want in zip(cases, res, exp):
+            ck.expect(impl == want, "decode:" + c[0].split("/")[0], c[1], impl, want, "ZCash decoding spec (python oracle), first failed validation")
+
+
+def check_C05(ck):
+    rng = ck.rng
+    thorough = ck.tier == "thorough"
+    for tag in ("g1", "g2"):
+        g = grp(tag)
+        K, C = g.K, g.C
+        pts = [("identity", None), ("generator", g.gen)] + [("subgroup", g.sub_pt(rng)) for _ in range(8 if not thorough else 60)]
+        # small-x points (leading zero bytes) in the subgroup are rare; use cofactor-cleared lifts of small x for variety of y order
+        for _ in range(4):
+            P = g.sub_pt(rng)
+            pts.append(("neg-of-subgroup", C.neg(P)))
+        cases, exp = [], []
+        for (c, P) in pts:
+            for comp in (True, False):
+                want = O.encode(K, P, comp).hex()
+                cases.append(("enc/" + c, "%s %s %s" % (tag, "enc_c" if comp else "enc_u", g.A(P)))); exp.append(want)
+                cases.append(("roundtrip/" + c, "%s %s %s" % (tag, "dec_c" if comp else "dec_u", want))); exp.append(g.A(P))
+                cases.append(("ser_jac/" + c, "%s ser_jac %s %d" % (tag, g.J(P, g.lam(rng)), 1 if comp else 0))); exp.append(want)
+        res = ck.run(cases)
+        for c, (impl, _), want in zip(cases, res, exp):
+            ck.expect(impl == want, "zcash:" + c[0].split("/")[0], c[1], impl, want, "byte-for-byte ZCash format / round trip")
+        # reverse direction: every accepted string re-encodes to itself
+        acc = []
+        for (c, bs, comp) in _enc_classes(g, rng, False):
+            r = O.decode(C, None, bs, comp, True)
+            if r[0] == "ok":
+                acc.append((bs, comp, r[1]))
+        c2 = [("re-encode", "%s %s %s" % (tag, "enc_c" if comp else "enc_u", g.A(P))) for (bs, comp, P) in acc]
+        for (bs, comp, P), c, (impl, _) in zip(acc, c2, ck.run(c2)):
+            ck.expect(impl == bs.hex(), "canonical", c[1], impl, bs.hex(), "decode(bs)=P => encode(P)=bs")
+
+
+def check_C19(ck):
+    rng = ck.rng
+    thorough = ck.tier == "thorough"
+    cases, exp = [], []
+    # Fr
+    for v in [0, 1, R - 1, rng.randrange(R), rng.randrange(R)]:
+        bs = v.to_bytes(32, "big")
+        cases.append(("fr/ser", "ser_fr %x" % v)); exp.append(bs.hex())
+        tail = bytes(rng.randrange(256) for _ in range(rng.randrange(0, 5)))
+        cases.append(("fr/deser+tail", "deser_fr %s" % (bs + tail).hex())); exp.append("%x 32" % v)
+    for v in [R, R + 1, 2 ** 256 - 1]:
+        cases.append(("fr/non-reduced", "deser_fr %s" % v.to_bytes(32, "big").hex())); exp.append("ERR:notInField")
+    for ln in (list(range(0, 32)) if thorough else [0, 1, 8, 31]):
+        cases.append(("fr/truncated", "deser_fr %s" % (bytes(ln).hex() or "-"))); exp.append("ERR:eof")
+    # Fq12
+    for _ in range(2 if not thorough else 8):
+        x = [rng.randrange(Q) for _ in range(12)]
+        bs = b"".join(c.to_bytes(48, "big") for c in x)
+        sx = ",".join("%x" % c for c in x)
+        cases.append(("fq12/ser", "ser_fq12 %s" % sx)); exp.append(bs.hex())
+        cases.append(("fq12/deser+tail", "deser_fq12 %s" % (bs + b"\x01\x02").hex())); exp.append("%s 576" % sx)
+        for ln in ([0, 47, 48, 100, 575] if not thorough else list(range(0, 576, 7)) + [575]):
+            cases.append(("fq12/truncated", "deser_fq12 %s" % (bs[:ln].hex() or "-"))); exp.append("ERR:eof")
+        k = rng.randrange(12)
+        bad = bytearray(bs); bad[48 * k:48 * k + 48] = (Q + rng.randrange(3)).to_bytes(48, "big")
+        cases.append(("fq12/non-reduced", "deser_fq12 %s" % bytes(bad).hex())); exp.append("ERR:notInField")
+    for tag in ("g1", "g2"):
+        g = grp(tag)
+        K, C = g.K, g.C
+        sz = 48 if K is F1 else 96
+        pts = [None, g.gen, g.sub_pt(rng), g.sub_pt(rng)]
+        for P in pts:
+            for comp in (True, False):
+                bs = O.encode(K, P, comp)
+                fl = 1 if comp else 0
+                for kind in ("aff", "jac"):
+                    arg = g.A(P) if kind == "aff" else g.J(P, g.lam(rng))
+                    cases.append(("%s/ser_%s" % (tag, kind), "%s ser_%s %s %d" % (tag, kind, arg, fl))); exp.append(bs.hex())
+                    tail = bytes(rng.randrange(256) for _ in range(rng.randrange(0, 4)))
+                    cases.append(("%s/deser_%s+tail" % (tag, kind), "%s deser_%s %s %d" % (tag, kind, (bs + tail).hex(), fl))); exp.append("%s %d" % (g.A(P), len(bs)))
+                    cases.append(("%s/flag-mismatch" % tag, "%s deser_%s %s %d" % (tag, kind, (bs + bytes(2 * sz)).hex(), 1 - fl))); exp.append("ERR:compressness")
+                lens = range(0, len(bs)) if thorough else [0, 1, sz - 1, sz, len(bs) - 1]
+                for ln in lens:
+                    if ln >= len(bs):
+                        continue
+                    cases.append(("%s/truncated" % tag, "%s deser_aff %s %d" % (tag, bs[:ln].hex() or "-", fl))); exp.append("ERR:eof")
+        # every rejected class of C04 -> error (never a value)
+        for (c, bs, comp) in _enc_classes(g, rng, False)[:: (5 if not thorough else 1)]:
+            r = O.decode(C, None, bs, comp, True)
+            fl = 1 if comp else 0
+            if bool(bs[0] & 0x80) != comp:
+                want = "ERR:compressness"
+            elif r[0] == "ok":
+                want = "%s %d" % (g.A(r[1]), len(bs))
+            else:
+                want = "ERR:decode:" + r[1]
+            cases.append(("%s/c04-class" % tag, "%s deser_aff %s %d" % (tag, bs.hex(), fl))); exp.append(want)
+    res = ck.run(cases)
+    for c, (impl, _), want in zip(cases, res, exp):
+        ck.expect(impl == want, "serdes:" + c[0], c[1], impl, want, "round trip / exact consumption / error")
+
+
+def check_C07(ck):
+    rng = ck.rng
+    thorough = ck.tier == "thorough"
+    for tag in ("g1", "g2"):
+        g = grp(tag)
+        K, C = g.K, g.C
+        cases, exp = [], []
+        pts = [("identity", None), ("generator", g.gen)] + [("subgroup", g.sub_pt(rng)) for _ in range(4)]
+        pts += [("order-%d" % l, g.low(l, rng)) for l in g.small] + [("full-curve", g.full(rng)) for _ in range(3)]
+        pts.append(("low+subgroup", C.add(g.low(g.small[0], rng), g.sub_pt(rng))))
+        for (c, P) in pts:
+            cases.append(("insub/" + c, "%s insub %s" % (tag, g.A(P)))); exp.append("true" if C.mul(P, R) is None else "false")
+        # off-curve pairs and twist points (y^2 = x^3 + b' with another b')
+        for _ in range(6):
+            x, y = K.rand(rng), K.rand(rng)
+            cases.append(("insub/off-curve", "%s insub %s" % (tag, g.A((x, y))))); exp.append("true" if (C.on_curve((x, y)) and C.mul((x, y), R) is None) else "false")
+        twist = O.Curve(K, K.zero, K.add(C.b, K.one))
+        for _ in range(4):
+            T = twist.random_point(rng)
+            cases.append(("insub/other-curve", "%s insub %s" % (tag, g.A(T)))); exp.append("false")
+        res = ck.run(cases)
+        for c, (impl, _), want in zip(cases, res, exp):
+            ck.expect(impl == want, "predicate", c[1], impl, want, "in_subgroup <=> identity or (on curve and [r]P = O)")
+        # safe API outputs are members: monitor on results of operations
+        outs = []
+        outs.append(("generator", "%s generator" % tag))
+        for _ in range(3):
+            outs.append(("scale_by_cofactor", "%s scalecof %s" % (tag, g.A(g.full(rng)))))
+            outs.append(("clear_h", "%s clearh %s" % (tag, g.J(g.full(rng), g.lam(rng)))))
+            outs.append(("map", "%s map %s" % (tag, K.show(K.rand(rng)))))
+            u0, u1 = K.rand(rng), K.rand(rng)
+            outs.append(("map2", "%s map2 %s %s" % (tag, K.show(u0), K.show(u1))))
+            outs.append(("h2c", "h2c %s xmd256 ro %s 51" % (tag, bytes(rng.randrange(256) for _ in range(5)).hex())))
+            outs.append(("mul", "%s mul %s %x" % (tag, g.J(g.sub_pt(rng), g.lam(rng)), rng.randrange(1 << 256))))
+            outs.append(("add", "%s add %s %s" % (tag, g.J(g.sub_pt(rng), g.lam(rng)), g.J(g.sub_pt(rng), g.lam(rng)))))
+        ores = ck.run(outs)
+        for c, (impl, _) in zip(outs, ores):
+            try:
+                P = g.pa(impl)
+                ok = C.on_curve(P) and C.mul(P, R) is None
+            except Exception:
+                ok = False
+            ck.expect(ok, "invariant:" + c[0], c[1], impl, "on curve and [r]P=O", "safe API output is a subgroup member")
